@@ -282,6 +282,17 @@ def _run_estimator(unit, rec, dreye):
                 _v(rec, "f", dict(sig, api=api, **exc_sig(err)), "%s rejected an overlapping domain: %r" % (api, err), case)
                 continue
             rec.distinct((fa, fb, api))
+            if api == "capture" and np.all(da == np.round(da)):
+                # the estimator's own domain given as an integer-typed array (np.arange(300, 701, 5)): same answer
+                rec.trans(2)
+                try:
+                    out_i = np.asarray(dreye.ReceptorEstimator(filters, domain=da.astype(np.int64)).capture(signals, domain=db))
+                    same_i = out_i.shape == out.shape and bool(np.array_equal(out_i, out))
+                except Exception as e:  # noqa
+                    same_i = False
+                rec.outcome("est-int-domain/%s" % ("same" if same_i else "differs"))
+                if not same_i:
+                    _v(rec, "f", dict(sig, api="capture", what="int-typed filter domain"), "an estimator built with an integer-typed filter domain captures a signal on a foreign domain differently from the same domain given as floats", case)
             if identical:
                 grid = da
                 F, S = filters, signals
